@@ -20,6 +20,9 @@ async def _impl_case(framing, max_size, chunks, mode):
     2: reader started first, chunks fed in pairs."""
     fr = framing.NewlineFramer(max_size)
     out = []
+    # many cases share one virtual loop and none of them lets virtual time pass: the loop's
+    # livelock guard counts per case, not per batch
+    asyncio.get_event_loop()._spin = 0
 
     async def reader():
         while True:
